@@ -168,6 +168,33 @@ def tie_b(ctx, cases, results, tag='c17'):
                    % (bad[:5], cases[ok[bad[0]]], results[ok[bad[0]]]['traj']))
 
 
+def adaptive_engine_schedule(ctx):
+    """the ghost-clipping adaptive engine with a noise scheduler: after k scheduler steps the nominal sigma is sigma0 * gamma^k, so the gradient
+    noise multiplier used by step k+1 must be (sigma_k^-2 - (2 sigma_b)^-2)^(-1/2) for THAT sigma_k"""
+    r = ctx.rng
+    cases = [{'ghost': True, 'seed': r.randint(0, 10**6), 'N': 96, 'B': 32, 'scale': 1.0, 'sigma': 2.0, 'C': 1.0, 'q': 0.5, 'lr': 0.2, 'minc': 1e-3, 'maxc': 1e3,
+              'gamma': g, 'adaptive_sched': True} for g in (0.5, 0.9)]
+    res = vlib.run_impl('adaptive_ghost.py', {'cases': cases}, timeout=900)['results']
+    for c, rr in zip(cases, res):
+        ctx.case(c, nontrivial=True, kind='adaptive-engine/exp')
+        judge_adaptive(ctx, c, rr)
+    ctx.traces += len(cases)
+
+
+def judge_adaptive(ctx, c, rr):
+    if rr.get('error'):
+        ctx.fail('sched-harness-error', rr['error'], c)
+        return
+    for k, st in enumerate(rr['steps']):
+        sk = c['sigma'] * c['gamma'] ** k
+        sb = st['rec'][0][0]
+        want = (sk ** -2 - (2 * sb) ** -2) ** -0.5
+        if abs(st['nm'] - want) > 1e-9 * want:
+            ctx.fail('adaptive-engine-overwrites-scheduled-sigma', 'ghost adaptive engine, step %d after %d scheduler steps: gradient noise multiplier %r, the schedule gives sigma %r hence %r '
+                     '(the engine recomputes it from the sigma of construction time)' % (k + 1, k, st['nm'], sk, want), c)
+            return
+
+
 def run(ctx, gen_status):
     vlib.check_property_file(ctx, 'C17', gen_status, GENS)
     cases = gen_cases(ctx, ctx.n(120, 1500))
@@ -177,6 +204,7 @@ def run(ctx, gen_status):
         ctx.case(c, nontrivial='S' in c['ops'], kind='%s/%s' % (c['family'], c['kind']))
         oracle_case(ctx, c, r)
     tie_b(ctx, cases, res)
+    adaptive_engine_schedule(ctx)
 
 
 def search(ctx):
@@ -198,7 +226,10 @@ def search(ctx):
 
 def replay_case(ctx, failure):
     c = failure['case']
-    res = vlib.run_impl('c17_sched.py', {'cases': [c]})['results'][0]
     n0 = len(ctx.failures)
+    if c.get('adaptive_sched'):
+        judge_adaptive(ctx, c, vlib.run_impl('adaptive_ghost.py', {'cases': [c]})['results'][0])
+        return len(ctx.failures) == n0, ctx.failures[n0:] or 'holds'
+    res = vlib.run_impl('c17_sched.py', {'cases': [c]})['results'][0]
     oracle_case(ctx, c, res)
     return len(ctx.failures) == n0, ctx.failures[n0:] or 'holds'
